@@ -8,6 +8,7 @@ import (
 	"fmt"
 	"math/rand"
 	"os"
+	"sort"
 	"strconv"
 	"sync"
 	"sync/atomic"
@@ -86,6 +87,9 @@ type subRec struct {
 	ret      int64
 }
 
+// stressWorkersDone is closed when every worker has come back from the library
+var stressWorkersDone = make(chan struct{})
+
 func stress20(dur time.Duration, workers int, seed int64, maxOps int64) int {
 	log := &stressLog{sends: map[[2]int]int{}, sendSeq: map[int][]int64{}, clean: map[int][]int64{}}
 	root := ggql.NewRoot(&stressSchema{Subscription: &stressSubRoot{log: log}})
@@ -139,6 +143,7 @@ func stress20(dur time.Duration, workers int, seed int64, maxOps int64) int {
 		}(w)
 	}
 	wg.Wait()
+	close(stressWorkersDone) // the library part is over: what follows is this file's own reading of the logs
 	// checks on the logs
 	for k, c := range log.sends {
 		if c > 1 {
@@ -159,11 +164,30 @@ func stress20(dur time.Duration, workers int, seed int64, maxOps int64) int {
 		}
 	}
 	missed := 0
+	// publishes by event id in the order of their start stamps: a subscriber is looked up only in the
+	// publishes that started after its request returned and before it was cleaned up
+	byID := map[int][]pubRec{}
 	for _, p := range pubs {
-		for _, s := range subs {
-			if s.ret < p.start && (s.pat < 0 || s.pat == p.id) {
-				cl := log.clean[s.uid]
-				if len(cl) > 0 && cl[0] < p.end {
+		byID[p.id] = append(byID[p.id], p)
+	}
+	for _, l := range byID {
+		sort.Slice(l, func(i, j int) bool { return l[i].start < l[j].start })
+	}
+	for _, s := range subs {
+		var cl0 int64 = -1
+		if cl := log.clean[s.uid]; len(cl) > 0 {
+			cl0 = cl[0]
+		}
+		for id, l := range byID {
+			if s.pat >= 0 && s.pat != id {
+				continue
+			}
+			k := sort.Search(len(l), func(i int) bool { return l[i].start > s.ret })
+			for _, p := range l[k:] {
+				if cl0 >= 0 && cl0 < p.start {
+					break // every later publish started after the clean-up
+				}
+				if cl0 >= 0 && cl0 < p.end {
 					continue
 				}
 				if log.sends[[2]int{s.uid, p.val}] == 0 {
@@ -199,9 +223,12 @@ func stressMain(args []string) {
 	}
 	// a run that does not come back (every worker blocked in the library) is a deadlock, not a hang of the check
 	go func() {
-		time.Sleep(dur + 45*time.Second)
-		fmt.Printf("stress20: FAIL deadlock: the run did not finish within %v + 45s (workers blocked in the library)\n", dur)
-		os.Exit(1)
+		select {
+		case <-stressWorkersDone:
+		case <-time.After(dur + 45*time.Second):
+			fmt.Printf("stress20: FAIL deadlock: the workers did not come back within %v + 45s (blocked in the library)\n", dur)
+			os.Exit(1)
+		}
 	}()
 	os.Exit(stress20(dur, workers, seed, maxOps))
 }
